@@ -1,6 +1,7 @@
 """C21 — the data-location registry answers consistently with its history (streamflow/data/manager.py)."""
 from __future__ import annotations
 
+import asyncio
 import random
 import sys
 from pathlib import Path
@@ -13,6 +14,9 @@ from sfv.framework import Ctx, Property
 from sfv.rt.hexs import hx
 
 DRIVER = "Drivers/C21.lean"
+
+
+_LOOP = asyncio.new_event_loop()
 
 
 class _Ckpt:
@@ -279,6 +283,17 @@ class C21(Property):
                     meta.append((ops, i, f"get_data_locations({q!r}, d{l})"))
                     if real != want:
                         diffs.append((q, l, real, want))
+            # the source location chosen for a transfer is a valid primary copy of that path
+            for q in sorted(universe)[:6]:
+                for l in range(nloc):
+                    src = _LOOP.run_until_complete(dm.get_source_location(q, f"d{l}"))
+                    ctx.count("get_source_location:" + ("none" if src is None else "some"))
+                    valid = dm.get_data_locations(q, data_type=DataType.PRIMARY)
+                    if (src is None) != (not valid) or (src is not None and (src.data_type != DataType.PRIMARY or not any(src is v for v in valid))):
+                        self._fail(ctx, "registry:source-location-not-a-valid-primary",
+                                   f"after {ops[: i + 1]}: get_source_location({q!r}, d{l}) = "
+                                   f"{None if src is None else (src.deployment, src.path, src.data_type.name)}, valid primaries "
+                                   f"{[(v.deployment, v.path) for v in valid]}", {"ops": ops[: i + 1], "nloc": nloc})
             if diffs:
                 has_rel = any(o[0] in ("rel", "wreg") for o in ops[: i + 1])
                 stale = []
